@@ -419,6 +419,13 @@ func (e *Engine) unusedAnchors() string {
 	}
 	for _, ls := range c.Loops {
 		found := false
+		if strings.Contains(ls.Anchor, "call ") {
+			// invariant of a callback iteration (Range)
+			if !e.usedRangeSpecs[ls] {
+				return fmt.Sprintf("iteration anchor %q matches no Range call reached in %s", ls.Anchor, c.Key)
+			}
+			continue
+		}
 		if strings.Contains(ls.Anchor, "/") {
 			continue // loop of an inlined callee
 		}
